@@ -80,6 +80,32 @@ class ExGen:
             return ["arr", dt, r, c, self.G.mat(dt, r, c)]
         return ["op", self.G.op(r, c, rng.choice([0, 0, 1, 1, 2]))]
 
+    @staticmethod
+    def yields_arr(e):
+        """Python mirror of `Ex.yieldsArr` (Model/Expr.lean): the expression is computed by NumPy alone"""
+        t = e[0]
+        if t == "op":
+            return False
+        if t == "arr":
+            return True
+        if t in ("add", "sub"):
+            return ExGen.yields_arr(e[1]) and ExGen.yields_arr(e[2])
+        if t in ("neg", "addz"):
+            return ExGen.yields_arr(e[1])
+        if t == "smul":
+            return ExGen.yields_arr(e[2])
+        if t in ("muls", "divs"):
+            return ExGen.yields_arr(e[1])
+        if t == "sdiv":
+            return ExGen.yields_arr(e[2])
+        if t == "matmul":
+            return ExGen.yields_arr(e[1]) or ExGen.yields_arr(e[2])
+        if t == "sumlist":
+            return all(ExGen.yields_arr(x) for x in e[1:])
+        if t == "densify":
+            return True
+        return False
+
     def shape_bad(self, r, c):
         rng = self.rng
         return (r + rng.choice([1, 2]), c) if rng.random() < 0.5 else (r, c + rng.choice([1, 2]))
@@ -97,7 +123,12 @@ class ExGen:
         bad = rng.random() < self.malformed_p
         if f in ("add", "sub"):
             r2, c2 = self.shape_bad(r, c) if bad else (r, c)
-            return [f, self.ex(r, c, d), self.ex(r2, c2, d)]
+            x, y = self.ex(r, c, d), self.ex(r2, c2, d)
+            if bad and self.yields_arr(x) and self.yields_arr(y) and (r == r2 or 1 in (r, r2)) and (c == c2 or 1 in (c, c2)):
+                # two plain arrays of broadcastable shapes are added by NumPy alone (broadcasting); no cola code is involved
+                # and the model answers `unsupported` there: keep the mismatched pair but let cola see it
+                y = ["op", self.G.op(r2, c2, rng.choice([0, 1]))]
+            return [f, x, y]
         if f == "neg":
             return ["neg", self.ex(r, c, d)]
         if f == "smul":
@@ -209,7 +240,8 @@ def observe_real(e):
         if isinstance(r, cola.ops.LinearOperator):
             M = np.asarray(r.to_dense())
             return {"kind": "op", "rows": int(r.shape[0]), "cols": int(r.shape[1]), "dtype": build.dtname(r.dtype),
-                    "value": build.exact_mat(M), "skel": treecheck.skel(r), "anns": treecheck.ann_list(r)}
+                    "value": build.exact_mat(M), "skel": treecheck.skel(r), "anns": treecheck.ann_list(r),
+                    "alias_gap": treecheck.alias_gap(r)}
         M = np.asarray(r)
         if M.ndim != 2:
             return {"kind": "array%d" % M.ndim}
@@ -284,10 +316,20 @@ def classify(e, ans, real):
     if has_sdiv(e) != ("scalar-divided-by-operator" in clauses):
         return "driver-error", "clause list of the driver disagrees with the expression (sdiv)"
     # real vs code
+    if code["kind"] == "err" and code["value"] == "unsupported" and real["kind"] != "err":
+        # a form the model explicitly does not cover (plain NumPy broadcasting of two arrays, scalar / array, ...); the
+        # generator never produces one, the shrinker may
+        return "skipped", "form outside the model"
     if code["kind"] == "err":
         rc = real["kind"] == "err" and (real["value"] == code["value"] or code["value"] == "unsupported")
     else:
         keys = [k for k in ("kind", "rows", "cols", "dtype", "value", "skel", "anns") if k in code]
+        if real.get("alias_gap"):
+            # equal-but-distinct Python objects in a Gram pattern: outside the model's identity assumption, the inferred
+            # annotations (and only they) are not compared (see treecheck.alias_gap)
+            keys = [k for k in keys if k not in ("skel", "anns")]
+            if all(real.get(k) == code[k] for k in keys) and (real.get("skel") != code.get("skel") or real.get("anns") != code.get("anns")):
+                return "skipped", "identity assumption of the model (equal but distinct objects in a Gram pattern)"
         rc = all(real.get(k) == code[k] for k in keys)
     # code vs spec
     if spec["kind"] == "none":
